@@ -3,5 +3,6 @@ pub mod term;
 pub mod rval;
 pub mod ref_feel;
 pub mod gen_core;
+pub mod dmn;
 pub mod engines;
 pub mod replay;
